@@ -80,7 +80,9 @@ def run(tier, seed):
     cs = [c for c in C.all_scalar_cases(tier, seed, fams=C.CONTINUOUS) if 'law' in c['tags']]
     ver = V.Verdict('C01')
     n = 100_000_000 if th else 4_000_000
-    cov = L.check('C01', cs, tier, seed, n, binary, ver)
+    # the two primitives everything else is built on get 250x (30x) the draws: their 1e-6 tails are resolved
+    extra = {c['id']: (3_000_000_000 if th else 1_000_000_000) for c in cs if c['fam'] in ('standard_normal', 'exp1')}
+    cov = L.check('C01', cs, tier, seed, n, binary, ver, extra_n=extra)
     bcov = run_bisect(bisect_cases(cs, tier), tier, seed, binary, ver)
     # f32 primitives are the rounded f64 primitives
     wd = V.workdir('c01')
